@@ -50,12 +50,22 @@ def generic_rules(ctx, config, U):
     Dq = S.app(DIV, S.P(1, "rhs"), S.app("Unit::as_qty", ps[3]))
     want = S.new(S.R(("/", ("*", ps[0], Dq), ps[2])), ps[1])
     probs = list(S.compare_cases(outs, [], lambda val: ("val", want)))
+    # the other direction of delegation: `rate * q` defined as `q * rate` of the per-quantity type — then every
+    # quantity type's own `q * rate` (incl. the dimensionless amount's) carries the obligation, see per_type
+    muls = [f for f in ev.calls_seen if f.get("trait") == "core::ops::arith::Mul"]
+    if (probs and t is not None and len(ev.calls_seen) == 1 and len(muls) == 1 and t[0] == "app" and len(t[3]) == 2
+            and t[3][0] == S.P(1, "rhs") and t[3][1] == T.canon(r) and len(muls[0]["args"]) == 2
+            and model.ty_key(muls[0]["args"][0]).startswith("$") and model.ty_key(muls[0]["args"][1]).startswith("quantities::rate::Rate<")):
+        ctx.ob("rate-mul-qty", config, True, "", b["span"])
+        ctx.sample({"function": path, "summary": "delegates to `q * rate` of the per-quantity type: " + T.show(t)})
+        return True
     ctx.ob("rate-mul-qty", config, not probs,
            "Rate{a,u,m,p} * q: %s — expected new(a * (q / as_qty(p)) / m, u) in every case; observed %s" % (
                probs[0][1] if probs else "", "; ".join("[%s] %s" % (T.show_guard(g), T.show(x)) for g, k, x in outs)), b["span"])
     ctx.sample({"function": path, "summary": T.show(t) if t else str(outs)})
     if t is not None and t[0] == "app" and t[1] == "Quantity::new":
         named_intermediates(ctx, "rate-intermediates", "%s/rate*q" % config, t[3][0], [Dq, ("/", Dq, ps[2]), ("*", ("/", Dq, ps[2]), ps[0])], b["span"])
+    return False
 
 
 def named_intermediates(ctx, rule, inst, result_term, named, where):
@@ -77,20 +87,20 @@ def named_intermediates(ctx, rule, inst, result_term, named, where):
            where, nontrivial=False)
 
 
-def per_type(ctx, config, w):
+def per_type(ctx, config, w, delegated=False):
     U = w.U
     n = 0
     ps = [S.P(10 + i, "rhs." + f) for i, f in enumerate(FIELDS)]
     r = rate_adt(ps)
     q_ = S.P(0, "self")
     for q in w.qtypes:
-        if q.kind == "dimless":
-            continue
         Q = q.path
         forms = {}
         for op, rhs_key, label in (("*", "quantities::rate::Rate<$G0,%s>" % Q, "q*rate"), ("/", "quantities::rate::Rate<%s,$G0>" % Q, "q/rate")):
             inst = "%s/%s/%s" % (config, Q, label)
             found = opforms.find_op(w, q.crate, op, Q, rhs_key)
+            if q.kind == "dimless" and not found and (op == "/" or not delegated):
+                continue     # optional for the dimensionless amount (served by the generic `rate * q`) unless that one delegates here
             if len(found) != 1:
                 ctx.fail("rate-op", inst, "expected exactly one impl `%s %s %s`, found %d" % (Q, op, rhs_key, len(found)), q.span)
                 continue
@@ -105,7 +115,12 @@ def per_type(ctx, config, w):
                 continue
             outs = [(g, k, T.canon(x)) for (g, k, x) in outs]
             t = one(outs)
-            if op == "*":
+            if q.kind == "dimless":
+                # one unit of scale one: the like-quantity ratio q / as_qty(ONE) is q itself (x / 1 = x exactly)
+                Dq = q_
+                want = S.new(S.R(("*", ("/", Dq, ps[2]), ps[0])), ps[1]) if op == "*" else S.new(S.R(("*", ("/", Dq, ps[0]), ps[2])), ps[3])
+                text = "new(q / per_unit_multiple * term_amount, term_unit)" if op == "*" else "new(q / term_amount * per_unit_multiple, per_unit)"
+            elif op == "*":
                 Dq = S.app(DIV, q_, S.app("Unit::as_qty", ps[3]))
                 want = S.new(S.R(("*", ("/", Dq, ps[2]), ps[0])), ps[1])
                 text = "new((q / as_qty(per_unit)) / per_unit_multiple * term_amount, term_unit)"
@@ -123,6 +138,10 @@ def per_type(ctx, config, w):
             divs = [f for f in ev.calls_seen if f.get("trait") == "core::ops::arith::Div" and model.ty_key(f["args"][0]) == Q]
             deleg = [f for f in ev.calls_seen if (f.get("resolved") or {}).get("path") == U.resolve_item(RATE_MUL) and len(f["args"]) == 2 and model.ty_key(f["args"][1]) == Q]
             gen_divs = [f for f in ev.calls_seen if f.get("trait") == "core::ops::arith::Div" and model.ty_key(f["args"][0]).startswith("$")]
+            if q.kind == "dimless":
+                forms[op] = (t if not probs else None, b, imp) if t is not None else (None, b, imp)
+                n += 1
+                continue
             ctx.ob("rate-op-ratio", inst, (len(divs) == 1 and model.ty_key(divs[0]["args"][1]) == Q and not deleg)
                    or (not divs and len(deleg) == 1 and len(gen_divs) == 1 and model.ty_key(gen_divs[0]["args"][1]) == model.ty_key(gen_divs[0]["args"][0])),
                    "the like-quantity ratio is not `%s / %s`" % (Q, Q), b["span"], nontrivial=False)
@@ -145,12 +164,47 @@ def per_type(ctx, config, w):
     return n
 
 
+def borrowed_rate_forms(ctx, config, w):
+    """`&rate * q` (and the like), should the tree have any, must forward to the by-value `rate * q` with the
+    operands dereferenced in order."""
+    U = w.U
+    n = 0
+    for c in w.crates:
+        if c.is_test:
+            continue
+        for (op, s_, r_, o, imp) in U.op_impls(c):
+            if op != "*" or not s_.lstrip("&").startswith("quantities::rate::Rate<") or (s_, r_) == (s_.lstrip("&"), r_.lstrip("&")):
+                continue
+            inst = "%s/%s * %s" % (config, s_, r_)
+            b = U.item_body(imp, "mul")
+            ok, why = False, "no body"
+            if b is not None:
+                ev = T.Evaluator(U, keep_tags=False, max_depth=0)
+                try:
+                    outs = ev.summarize(b)
+                    t = one([(g, k, T.canon(x)) for g, k, x in outs])
+                    calls = [f for f in ev.calls_seen if f.get("trait") == "core::ops::arith::Mul"]
+                    ok = (t is not None and t[0] == "app" and t[3] == (S.P(0, "self"), S.P(1, "rhs")) and len(ev.calls_seen) == 1 and len(calls) == 1
+                          and model.ty_key(calls[0]["args"][0]).startswith("quantities::rate::Rate<")
+                          and ((calls[0].get("resolved") or {}).get("path") == U.resolve_item(RATE_MUL)
+                               # (behind a `Rate<TQ, PQ>: Mul<PQ>` bound the callee is named by its operand types only)
+                               or (calls[0].get("resolved") is None
+                                   and model.alpha([model.ty_key(a) for a in calls[0]["args"]]) == [s_.lstrip("&"), r_.lstrip("&")])))
+                    why = "body is %s" % (T.show(t) if t else outs)
+                except T.Unsupported as x:
+                    why = "unsupported construct: " + x.what
+            ctx.ob("rate-ref-form", inst, ok, "borrowed rate operator does not forward to the by-value `rate * q`: %s" % why, (b or imp)["span"], nontrivial=False)
+            n += 1
+    return n
+
+
 def run(ctx):
     for config in ("f64-all", "dec-all") + (("f64-nostd", "dec-nostd") if ctx.tier == "thorough" else ()):
         w = ws.load(config)
         ctx.configs.append(config)
-        generic_rules(ctx, config, w.U)
-        n = per_type(ctx, config, w)
+        delegated = generic_rules(ctx, config, w.U)
+        n = per_type(ctx, config, w, delegated)
+        borrowed_rate_forms(ctx, config, w)
         ctx.floor("%s: generated rate operators" % config, n, 2 * {"f64-all": 18, "dec-all": 14}.get(config, 14))
     ctx.rule_text = "record axioms of Rate, reciprocal swap + involution by composition, value-flow forms of Rate*q (generic) and q*Rate, q/Rate per quantity type, q/r == q*reciprocal(r)"
     ctx.trusted = ["rustc THIR construction and resolution", "the like-quantity ratio q / as_qty(u) is C03 (reference-unit types) / C10 (others)", "Unit::as_qty is C09"]
